@@ -153,7 +153,7 @@ type Ref struct {
 
 // BuildRef runs REF-LINEAR over blocks L..stop-1 of the canonical chain.
 func BuildRef(mods *pbsubstreams.Modules, output string, stop uint64, segSize uint64) (*Ref, error) {
-	rp, err := NewRefPipe(mods, output, stop, segSize, 0)
+	rp, err := NewRefPipe(mods, output, stop, segSize, bstream.GetProtocolFirstStreamableBlock)
 	if err != nil {
 		return nil, err
 	}
@@ -222,7 +222,7 @@ type ChainBlock struct {
 
 // RefChainResult is the sequential reference over an explicit chain.
 type RefChainResult struct {
-	Payload map[string][]byte   // block id -> output payload
+	Payload map[string][]byte    // block id -> output payload
 	Stores  map[string]StoreSnap // after the last block
 }
 
@@ -233,7 +233,7 @@ func RunRefChain(mods *pbsubstreams.Modules, output string, segSize uint64, base
 	if len(suffix) > 0 {
 		top = suffix[len(suffix)-1].Num
 	}
-	rp, err := NewRefPipe(mods, output, top+1, segSize, 0)
+	rp, err := NewRefPipe(mods, output, top+1, segSize, bstream.GetProtocolFirstStreamableBlock)
 	if err != nil {
 		return nil, err
 	}
